@@ -320,6 +320,42 @@ func runC18(seed int64, tier string, outDir string) *result {
 					fail("merge", "C18:link-entry-does-not-verify", "Join of a log loaded from the store with the same key: "+err.Error(), c08Case{Kind: "join-loaded"})
 				}
 			}
+			// the log re-opened through each loader with the keyed codec in LogOptions.IO (the normal way):
+			// what is appended to the re-opened log must be sealed like everything else
+			reopen := map[string]func() (*ipfslog.IPFSLog, error){
+				"reopened-entryhash": func() (*ipfslog.IPFSLog, error) {
+					return ipfslog.NewFromEntryHash(ctx, api, idents[0], all[len(all)-1].GetHash(), &ipfslog.LogOptions{ID: "c18log", IO: lio}, &ipfslog.FetchOptions{})
+				},
+				"reopened-json": func() (*ipfslog.IPFSLog, error) {
+					return ipfslog.NewFromJSON(ctx, api, idents[0], la.ToJSONLog(), &ipfslog.LogOptions{ID: "c18log", IO: lio}, &entry.FetchOptions{})
+				},
+				"reopened-entry": func() (*ipfslog.IPFSLog, error) {
+					return ipfslog.NewFromEntry(ctx, api, idents[0], la.Heads().Slice(), &ipfslog.LogOptions{ID: "c18log", IO: lio}, &entry.FetchOptions{})
+				},
+				"reopened-multihash": func() (*ipfslog.IPFSLog, error) {
+					mh, err := la.ToMultihash(ctx)
+					if err != nil {
+						return nil, err
+					}
+					return ipfslog.NewFromMultihash(ctx, api, idents[0], mh, &ipfslog.LogOptions{ID: "c18log", IO: lio}, &ipfslog.FetchOptions{})
+				},
+			}
+			for _, how := range []string{"reopened-entryhash", "reopened-json", "reopened-entry", "reopened-multihash"} {
+				lr, err := reopen[how]()
+				if err != nil {
+					fail("merge", "C18:load-error", how+": "+err.Error(), c08Case{Kind: how})
+					continue
+				}
+				ne, err := lr.Append(ctx, []byte(fmt.Sprintf("%s-%d", how, n)), &iface.AppendOptions{PointerCount: 2})
+				if err != nil {
+					fail("write", "C18:write-error", how+": Append: "+err.Error(), nil)
+					continue
+				}
+				oe := ne.(*entry.Entry)
+				var links []cid.Cid
+				links = append(append(links, oe.Next...), oe.Refs...)
+				checkBlock(how, oe, links)
+			}
 		}
 	}
 
